@@ -4,6 +4,7 @@ Global-RNG tracer: numpy.random.get_state() before/after every call given an int
 two calls with the same integer seed (or two identically seeded RandomState objects) must be bit-identical although the
 harness reseeds and draws from the global generator in between; seed-free deterministic functions must repeat exactly.
 """
+import os
 import numpy as np
 
 from ..core import gen, ref, decomp
@@ -31,7 +32,7 @@ def plan(tier, seed):
 
 def floors(tier):
     f = {"checked/%s" % e: 30 for e in ENTRY}
-    f.update({"clause/fresh-process": 50, "clause/same-int-seed": 1500, "clause/global-state-untouched": 1500, "clause/same-randomstate": 1200, "clause/seed-free-repeat": 100,
+    f.update({"clause/concurrent-same-seed": 300, "concurrent_yield_injections": 10000, "clause/fresh-process": 50, "clause/same-int-seed": 1500, "clause/global-state-untouched": 1500, "clause/same-randomstate": 1200, "clause/seed-free-repeat": 100,
               "seed_sensitive": 1000})
     return f
 
@@ -340,6 +341,9 @@ def _run_case(case, ctx):
     if not same_state(st0, st1):
         ctx.violation("C16:%s:global-state-touched:any" % entry, "a call with an integer seed changed numpy's global random state", desc)
         return
+    if not desc.get("refit") and case["idx"] % 2 == 0:
+        if not concurrent_clause(ctx, entry, f, seed, out1, desc):
+            return
     ctx.count("clause/same-randomstate")
     np.random.seed(g1)
     o3 = flat_bytes(f(np.random.RandomState(seed)))
@@ -358,6 +362,80 @@ def _run_case(case, ctx):
             ctx.count("seed_insensitive/%s" % entry)
     except np.linalg.LinAlgError:
         pass
+
+
+def concurrent_clause(ctx, entry, f, seed, out1, desc):
+    """the same integer seed gives the same result when the two calls overlap in time: three threads (two with `seed`, one with
+    another seed) call the entry point concurrently, with a yield injected at statement boundaries inside tensorly"""
+    import sys, threading, time
+    other = seed - 1 if seed > 0 else seed + 7
+    try:
+        ref_other = flat_bytes(f(other))
+    except np.linalg.LinAlgError:
+        return True
+    inj = [0]
+    tool = None
+    try:
+        mon = sys.monitoring
+        tool = 4
+        mon.use_tool_id(tool, "tlv-c16")
+        marker = os.sep + "tensorly" + os.sep
+
+        def on_line(code, line):
+            if marker in code.co_filename and "site-packages" not in code.co_filename:
+                inj[0] += 1
+                if inj[0] < 20000:
+                    time.sleep(0)
+                    return None
+            return mon.DISABLE
+        mon.register_callback(tool, mon.events.LINE, on_line)
+        mon.set_events(tool, mon.events.LINE)
+    except Exception:  # noqa
+        tool = None
+    res, errs = {}, []
+
+    def work(i, sd):
+        import warnings
+        warnings.simplefilter("ignore")
+        try:
+            res[i] = [flat_bytes(f(sd)) for _ in range(2)]
+        except Exception as e:  # noqa
+            errs.append((i, type(e).__name__, str(e)[:100]))
+    old = sys.getswitchinterval()
+    sys.setswitchinterval(1e-6)
+    try:
+        ths = [threading.Thread(target=work, args=(i, sd), daemon=True) for i, sd in enumerate([seed, other, seed])]
+        for t in ths:
+            t.start()
+        for t in ths:
+            t.join(timeout=120)
+        hung = any(t.is_alive() for t in ths)
+    finally:
+        sys.setswitchinterval(old)
+        if tool is not None:
+            try:
+                sys.monitoring.set_events(tool, 0)
+                sys.monitoring.register_callback(tool, sys.monitoring.events.LINE, None)
+                sys.monitoring.free_tool_id(tool)
+            except Exception:  # noqa
+                pass
+    if hung:
+        ctx.inconc("C16 concurrent clause: worker threads still running after 120 s (%s)" % entry)
+        return True
+    if errs:
+        if all(e[1] == "LinAlgError" for e in errs):
+            return True
+        ctx.violation("C16:%s:concurrent-raises-%s:any" % (entry, errs[0][1]), "a seeded call that works alone raised when made from three threads at once: %s" % (errs[0],), desc)
+        return False
+    ctx.count("clause/concurrent-same-seed")
+    ctx.count("concurrent_yield_injections", inj[0])
+    for i, want in ((0, out1), (1, ref_other), (2, out1)):
+        for k, got in enumerate(res.get(i, [])):
+            if got != want:
+                ctx.violation("C16:%s:concurrent-same-seed:any" % entry, "thread %d, call %d with random_state=%d returned a different result than the same call made alone "
+                              "(two other seeded calls were running concurrently; %d yields injected)" % (i, k, seed if i != 1 else other, inj[0]), desc)
+                return False
+    return True
 
 
 def child_main():
